@@ -413,7 +413,10 @@ fn monitor(src: &str, c: &Collected) -> Vec<Viol> {
                     Some(i) => out[i + 1..bp].chars().count(),
                     None => cp,
                 };
-                if (line, col) != (l.line as usize, l.col as usize) {
+                if line == l.line as usize && col > 65535 && l.col as usize == 65535 {
+                    // format.rs end_loc since 54c7366: the column is clamped at u16::MAX (no longer wrapped)
+                    v.push(Viol { key: "gmap-out/col-saturated".into(), kind: "gmap-out", detail: format!("{which} {} true column {col} (0-based) is clamped to 65535", loc_str(l)) });
+                } else if (line, col) != (l.line as usize, l.col as usize) {
                     v.push(Viol { key: "gmap-out/line-col".into(), kind: "gmap-out", detail: format!("{which} {} expected {line}:{col} (0-based, in the formatted text {:?})", loc_str(l), trunc(out.clone(), 60)) });
                 }
             }
@@ -670,6 +673,8 @@ fn cause(key: &str, detail: &str, shrunk: &str) -> &'static str {
         "guard-empty-line-panic"
     } else if detail.contains("too long]") {
         "guard-error-span"
+    } else if key == "gmap-out/col-saturated" {
+        "fmt-out-col-u16"
     } else if key.starts_with("gmap-out/") {
         "fmt-eol-comment-map"
     } else if shrunk.match_indices("\\\\").any(|(i, _)| shrunk[i + 2..].chars().next().is_some_and(|c| c.is_ascii_alphanumeric())) {
@@ -883,20 +888,27 @@ fn main() {
                     );
                 }
             }
-            // formatter only: the OUTPUT-side positions of the glyph map are 16-bit too (format.rs end_loc, `as u16`)
-            {
-                let label = "\"F=\" then 65532 '+' (accepted: 65534 chars; the formatted line \"F \u{2190} +++...\" has 65536 chars)";
-                let src = format!("F={}", "+".repeat(65532));
+            // formatter only: the OUTPUT-side positions of the glyph map are 16-bit too (format.rs end_loc).
+            // 54c7366 replaced the truncating cast of the column by a clamp: a wrapped column is a regression,
+            // a clamped one is the remaining limit (finding fmt-out-col-u16), a line of exactly 65535 chars is exact.
+            for (label, npl, may_clamp) in [
+                ("\"F=\" then 65532 '+' (accepted: 65534 chars; the formatted line \"F \u{2190} +++...\" has 65536 chars)", 65532usize, true),
+                ("\"F=\" then 65531 '+' (the formatted line has 65535 chars: last column exactly representable)", 65531usize, false),
+            ] {
+                let src = format!("F={}", "+".repeat(npl));
                 begin(&src);
                 let mut c = Collected { recs: Vec::new(), fmt_out: None, panics: Vec::new(), ntok: 0, nlexerr: 0 };
                 collect_format(&src, &mut c);
                 let mut seen: Vec<String> = Vec::new();
+                if c.fmt_out.is_none() {
+                    println!("{{\"violation\":\"gmap-out/no-output\",\"cause\":\"regression-fmt-out-col\",\"span_kind\":\"gmap-out\",\"input\":{},\"input_len\":{},\"detail\":\"format_str produced no output\",\"cat\":\"big\"}}", jstr(label), src.len());
+                }
                 for v in monitor(&src, &c) {
                     if !(v.key.starts_with("gmap") || v.key.starts_with("panic/")) || seen.contains(&v.key) {
                         continue;
                     }
                     seen.push(v.key.clone());
-                    let cz = if v.key == "gmap-out/line-col" { "fmt-out-col-u16" } else { "regression-fmt-out-col-u16" };
+                    let cz = if v.key == "gmap-out/col-saturated" && may_clamp { "fmt-out-col-u16" } else { "regression-fmt-out-col-wrap" };
                     println!(
                         "{{\"violation\":{},\"cause\":{},\"span_kind\":{},\"input\":{},\"input_len\":{},\"detail\":{},\"cat\":\"big\"}}",
                         jstr(&v.key),
